@@ -7,7 +7,7 @@
 
 use std::path::PathBuf;
 
-use rosu_pp::Beatmap;
+use rosu_pp::{Beatmap, Difficulty, Performance};
 use vh::{
     battery,
     gen::{self, Kind, PosK},
@@ -153,7 +153,7 @@ fn run_case(l: &mut Local<'_>, text: &str, rich: bool) {
 
 fn main() {
     let ctx = Ctx::from_env_caps("C05", 52, 1500);
-    ctx.rule("adversarial universes: 4 templates (full 5-object map, single spinner, single slider, hold+circle) x 4 modes; every set of <= 2 (quick) / <= 3 (thorough, reduced to the full template) deviations from the defaults, each deviation = one corner value of one numeric slot (times up to +-2^31 incl. 500 ms below 2^24 and 2^30, coordinates up to +-131072, slider length 0..20000, repeats 0..100, spinner/hold lengths -5..10^6 relative to the (deviated) start, beat lengths at the clamps / negative / NaN, difficulty settings at their clamps, versions 3/5/7/128, curve types); a case is in the domain iff it decodes, check_suspicion() is Ok and sliders have <= 100 repeats and <= 20000 px. realistic universes: grammar maps (times within [0, 3h]) executed by workers built with debug assertions and overflow checks. Subject = the whole public battery (bpm, 3 conversion entry points, difficulty, strains, gradual difficulty by next and nth, gradual performance, performance with counts up to 3x the object count, attribute builder) for every reachable mode x settings menu (rates 0.01 and 100, overrides +-20, key mods 1K-10K). Oracle = worker exit status, catch_unwind, 3 s and 1 GiB per case; non-trivial = case is in the domain");
+    ctx.rule("adversarial universes: 4 templates (full 5-object map, single spinner, single slider, hold+circle) x 4 modes; every set of <= 2 (quick) / <= 3 (thorough, reduced to the full template) deviations from the defaults, each deviation = one corner value of one numeric slot (times up to +-2^31 incl. 500 ms below 2^24 and 2^30, coordinates up to +-131072, slider length 0..20000, repeats 0..100, spinner/hold lengths -5..10^6 relative to the (deviated) start, beat lengths at the clamps / negative / NaN, difficulty settings at their clamps, versions 3/5/7/128, curve types); a case is in the domain iff it decodes, check_suspicion() is Ok and sliders have <= 100 repeats and <= 20000 px. realistic universes: grammar maps (times within [0, 3h]), every taiko centre / rim sequence of <= 12 (thorough 15) evenly spaced hits (native and converted), executed by workers built with debug assertions and overflow checks. Subject = the whole public battery (bpm, 3 conversion entry points, difficulty, strains, gradual difficulty by next and nth, gradual performance, performance with counts up to 3x the object count, attribute builder) for every reachable mode x settings menu (rates 0.01 and 100, overrides +-20, key mods 1K-10K). Oracle = worker exit status, catch_unwind, 3 s and 1 GiB per case; non-trivial = case is in the domain");
 
     let rich = !ctx.quick();
     // order: cheapest universes first, so that the internal wall cap can only ever cut the largest one short
@@ -206,6 +206,47 @@ fn main() {
             }
         };
         ctx.universe_isolated(&name, total, 5.0, 1024, body);
+    }
+
+    // every centre / rim sequence of up to 12 (thorough 15) hits at an even pace, native taiko and osu! -> taiko: the colour
+    // preprocessor groups hits into mono runs, runs into alternating patterns and patterns into repeating chains, and the
+    // ends of the map are where its look-ahead runs out
+    {
+        use vh::gen::{MapSpec, Obj};
+        let max_len: u32 = if rich { 15 } else { 12 };
+        let per_mode: u64 = (1..=max_len).map(|k| 1u64 << k).sum();
+        let name = format!("taiko-colour-sequences/len<={max_len}/{}cases", per_mode * 2);
+        let body = |idx: u64, l: &mut Local<'_>| {
+            let (mode, mut r) = (if idx < per_mode { 1u8 } else { 0 }, idx % per_mode);
+            let mut len = 1u32;
+            while r >= 1u64 << len {
+                r -= 1u64 << len;
+                len += 1;
+            }
+            let objs: Vec<Obj> = (0..len).map(|i| Obj { kind: Kind::Circle, gap: if i == 0 { 0 } else { 150 }, pos: PosK::Far, sound: if r >> i & 1 == 1 { 8 } else { 0 }, col: 0 }).collect();
+            let spec = MapSpec::new(mode, objs);
+            if l.want_sample() {
+                let mut o = J::obj();
+                o.set("universe", J::s(l.universe));
+                o.set("index", J::i(idx));
+                o.set("colours", J::s(format!("mode {mode}: {}", (0..len).map(|i| if r >> i & 1 == 1 { 'k' } else { 'd' }).collect::<String>())));
+                l.sample(o);
+            }
+            let map = spec.decode();
+            l.nontrivial();
+            l.states(1);
+            let d = Difficulty::new();
+            let a = vh::api::difficulty(&d, &map, 1).expect("taiko reachable");
+            let st = vh::api::strains(&d, &map, 1).expect("taiko reachable");
+            let n = vh::api::gradual(d.clone(), &map, 1).expect("taiko reachable").count();
+            let p = Performance::new(a.clone()).accuracy(93.0).calculate();
+            std::hint::black_box((a, st, n, p));
+            l.checked(4);
+            if l.ctx.replay.is_some() {
+                println!("--- case text ---\n{}", spec.text());
+            }
+        };
+        ctx.universe_isolated(&name, per_mode * 2, 5.0, 1024, body);
     }
 
     // a circle carrying a finish / clap / whistle directly followed by a repeat slider (span lengths from 48 to 440 ms over the
